@@ -6,7 +6,7 @@
    of the converter).  The user callable is a Section variable; where a theorem needs it
    to be row-wise, that is a hypothesis written out in the statement. *)
 From Coq Require Import String.
-From Coq Require Import List Arith.
+From Coq Require Import List Arith ZArith.
 From PF Require Import Lib.ListX Lib.Chunks Model.Embedders Proofs.EmbeddersProofs.
 Import ListNotations.
 
@@ -146,6 +146,39 @@ Section C16_tokenizer.
   Qed.
 End C16_tokenizer.
 
+(* --- the public ImageEmbedder base class with its default retrieval (config/image_embedder.py
+   forward_retrieve / __call__), and a callable that may raise inside EmbeddingTensorMapper.forward --- *)
+Section C16_image.
+  Context {Img V : Type}.
+  Variable open_image : string -> option Img.     (* Image.open(path) ... convert('RGB'); None = raises *)
+  Variable forward_embed : list Img -> list V.    (* the user's subclass *)
+
+  (* retrieval hands forward_embed exactly one image per path, in order *)
+  Theorem c16_image_retrieve_one_per_path : forall paths imgs,
+    forward_retrieve open_image paths = Some imgs ->
+    length imgs = length paths /\ Forall2 (fun p im => open_image p = Some im) paths imgs.
+  Proof. exact (retrieve_one_per_path open_image). Qed.
+
+  Variable embed1 : Img -> V.
+  Hypothesis H_embed_app : forall xs ys, forward_embed (xs ++ ys) = forward_embed xs ++ forward_embed ys.
+  Hypothesis H_embed_one : forall x, forward_embed [x] = [embed1 x].
+
+  (* "raise, or one image per row with row i's output in row i" -- both halves, for every batch size:
+     a cell that cannot be opened makes the conversion raise (no row is silently dropped or shifted) ... *)
+  Theorem c16_image_unopenable_raises : forall bs cells c, valid_bs bs ->
+    In c cells -> open_image (render c) = None ->
+    emb_forward_raising (image_call open_image forward_embed) bs cells = None.
+  Proof. exact (image_forward_raises open_image forward_embed). Qed.
+
+  (* ... and when every cell opens, the result has n rows and row i is forward_embed's output for the
+     image row i's path opens to *)
+  Theorem c16_image_rows : forall bs cells imgs, valid_bs bs -> cells <> [] ->
+    mapM open_image (map render cells) = Some imgs ->
+    length imgs = length cells /\
+    emb_forward_raising (image_call open_image forward_embed) bs cells = Some (length cells, map embed1 imgs).
+  Proof. exact (image_forward_covers open_image forward_embed embed1 H_embed_app H_embed_one). Qed.
+End C16_image.
+
 (* --- wiring: each column is served by the callable configured for it --- *)
 Theorem c16_wiring_per_column : forall {F} (pre post : list (string * @cfg F)) col x,
   ~ In col (map fst pre) -> cfg_lookup col (pre ++ (col, x) :: post) = Some x.
@@ -168,6 +201,9 @@ Print Assumptions c16_embedding_batch_independent.
 Print Assumptions c16_tokens_list_format.
 Print Assumptions c16_tokens_map_format.
 Print Assumptions c16_tokens_format_and_batch_independent.
+Print Assumptions c16_image_retrieve_one_per_path.
+Print Assumptions c16_image_unopenable_raises.
+Print Assumptions c16_image_rows.
 Print Assumptions c16_wiring_per_column.
 Print Assumptions c16_wiring_broadcast.
 
@@ -215,4 +251,14 @@ Proof. vm_compute. auto. Qed.
 Example c16_ex_empty_column_raises :
   emb_forward ex_emb None [] = None /\ emb_forward ex_emb (Some 2) [] = None /\
   tok_forward String.eqb ex_tok_list None [] = None /\ tok_forward String.eqb ex_tok_map (Some 2) [] = None.
+Proof. vm_compute. auto. Qed.
+
+(* real files: two openable paths and one that is not; batch size 2 over 3 rows *)
+Example c16_ex_image_retrieval :
+  let files := [("a.png", Some 0); ("b.png", Some 3); ("dir", None)] in
+  c16_img_col files 2 1%Z (Some 2) DObject [CStr "b.png"; CStr "a.png"; CStr "b.png"] =
+    Some ([["b.png"; "a.png"]; ["b.png"]], Some (3, [[16; 17]; [4; 5]; [16; 17]]%Z)) /\
+  c16_img_col files 2 1%Z (Some 2) DObject [CStr "b.png"; CStr "a.png"; CStr "dir"; CStr "a.png"] =
+    Some ([["b.png"; "a.png"]; ["dir"; "a.png"]], None) /\
+  c16_img_col files 2 1%Z None DObject [CStr "b.png"; CNone] = Some ([["b.png"; "None"]], None).
 Proof. vm_compute. auto. Qed.
